@@ -27,7 +27,7 @@ def parseCase (c : String) : Option (List (List Elem)) :=
   -- `mergeD` / `mergeS`: the same merge under comparators that answer differences / ±7 (harness/run/c08.go); the model's
   -- comparator is the order they all induce
   | [h] :: ins =>
-    if h == "merge" || h == "mergeD" || h == "mergeS" then
+    if h == "merge" || h == "mergeD" || h == "mergeS" || h == "mergeA" then
       ins.mapM (fun ts => match ts with | [t] => parseElems t | _ => none)
     else none
   | _ => none
